@@ -10,6 +10,11 @@ RULES = {
     "R04.2": "fixed-point safety: in votes_needed, with weight in [0, 2^64-1] and the percentage in [0,1], interval evaluation "
              "shows PRECISION_FACTOR * weight and the + PRECISION_FACTOR - 1 stay below 2^128 and the final `as u64` is lossless",
     "R04.3": "round-up idiom: votes_needed returns (x + F - 1) / F with the same constant F that scales the weight",
+    "R04.4": "sibling agreement of the decision arms: every non-constant result of is_passed is the non-strict comparison "
+             "needed <= votes.yes and every result of is_rejected is the strict comparison needed < votes.no (an arm that deviates "
+             "in strictness lets one tally be both passed and rejected, or rejects a proposal that can still pass); in each "
+             "(threshold kind, expiry) case both functions measure against the same base weight, the rejection side with the "
+             "complementary percentage 1 - p",
 }
 U64 = 2 ** 64 - 1
 U128 = 2 ** 128 - 1
@@ -114,6 +119,7 @@ def run(ctx):
                       % show(r)[:200],
                sites=[(b.file, b.line, b.path)], sample={"result": show(r)[:200], "yes_nonzero_decided": nonzero})
     ctx.floor("R04.1", "is_passed paths that can return true", n, 4)
+    check_siblings(ctx, paths)
     # ---- R04.2 / R04.3
     vb = ctx.facts.bodies.get(VOTES_NEEDED)
     if not ctx.ob("R04.2", "anchor:votes_needed", vb is not None, detail="cw3 votes_needed not found", trivial=True):
@@ -149,3 +155,65 @@ def run(ctx):
             else:
                 why = "numerator %s is not x + F - 1 with F = %d (rounding up requires adding F - 1)" % (n_.show()[:160], F)
         ctx.ob("R04.3", "votes_needed/round-up", good, detail=why, sites=[(vb.file, vb.line, vb.path)], sample={"result": show(r)[:240]})
+
+
+def arm_key(p):
+    arm = [c[1] for c in p.conds if c[0] == ("field", ("param", "self"), "threshold")]
+    extra = [("expired" if c[1] else "not expired") for c in p.conds if c[0][0] == "call" and c[0][1].endswith("is_expired")]
+    return "%s%s" % (arm[0] if arm else "?", ("/" + extra[0]) if extra else "")
+
+
+def needed_parts(t):
+    """t == cast(.. mul_floor(F * base, pct) ..) as produced by the inlined votes_needed -> (base, pct)"""
+    for x in walk(t):
+        if x[0] == "call" and x[1].endswith("mul_floor"):
+            scaled, pct = x[2]
+            if scaled[0] == "bin" and scaled[1] == "mul":
+                base = scaled[3] if scaled[2][0] == "lit" else scaled[2]
+                return base, pct
+    return None
+
+
+def check_siblings(ctx, passed_paths):
+    from .cw3common import IS_REJECTED
+    if not ctx.ob("R04.4", "anchor:Proposal::is_rejected", IS_REJECTED in ctx.facts.bodies, trivial=True, detail="is_rejected not found"):
+        return
+    rej_paths = ctx.summarise(IS_REJECTED)
+    yes = ("field", ("field", ("param", "self"), "votes"), "yes")
+    no = ("field", ("field", ("param", "self"), "votes"), "no")
+    P, R = {}, {}
+    for p in passed_paths:
+        r = p.ret
+        if r[0] == "lit":
+            continue
+        k = arm_key(p)
+        good = r[0] == "cmp" and r[1] == "le" and r[3] == yes
+        ctx.ob("R04.4", "is_passed/%s non-strict" % k, good,
+               detail="is_passed arm %s returns %s; its sibling arms return `needed <= votes.yes`" % (k, show(r)[:160]), sample={"result": show(r)[:120]})
+        if good:
+            P[k] = r[2]
+    for p in rej_paths:
+        r = p.ret
+        if r[0] == "lit":
+            continue
+        k = arm_key(p)
+        good = r[0] == "cmp" and r[1] == "lt" and r[3] == no
+        ctx.ob("R04.4", "is_rejected/%s strict" % k, good,
+               detail="is_rejected arm %s returns %s; its sibling arms return the strict `needed < votes.no` (a non-strict arm rejects a "
+                      "proposal that can still reach the threshold exactly, and lets a tally be both passed and rejected)" % (k, show(r)[:160]),
+               sample={"result": show(r)[:120]})
+        if good:
+            R[k] = r[2]
+    ctx.floor("R04.4", "is_rejected arms", len(R), 4)
+    for k in sorted(set(P) & set(R)):
+        a, b = needed_parts(P[k]), needed_parts(R[k])
+        if a is None and b is None:
+            # AbsoluteCount: total - weight_needed on the rejection side
+            ctx.ob("R04.4", "pair/%s" % k, True, trivial=True)
+            continue
+        good = a is not None and b is not None and a[0] == b[0] and b[1][0] == "bin" and b[1][1] == "sub" and b[1][3] == a[1] \
+            and b[1][2][0] == "call" and b[1][2][1].endswith("Decimal::one")
+        ctx.ob("R04.4", "pair/%s same base, complementary percentage" % k, good,
+               detail="is_passed measures %s against base %s with %s, is_rejected against base %s with %s (expected the same base and 1 - p)"
+                      % (k, show(a[0])[:100] if a else None, show(a[1])[:60] if a else None, show(b[0])[:100] if b else None, show(b[1])[:80] if b else None),
+               sample={"base": show(a[0])[:120] if a else None})
